@@ -332,7 +332,8 @@ def main(argv):
     finally:
         ctx.close()
     c = ctx.coverage
-    print(json.dumps(dict(coverage={k: v for k, v in c.items() if k not in ('java_model_trusted_base',)}, timings=ctx.timings), indent=1)[:6000])
+    print(json.dumps(dict(coverage={k: v for k, v in c.items() if k not in ('java_model_trusted_base', 'java_methods_with_theorem_list')}), indent=1)[:5000])
+    print('timings: ' + json.dumps(ctx.timings))
     for k in ('proof_broken', 'tie_broken', 'problems'):
         for m in rep[k]: print('%s: %s' % (k.upper(), m))
     if rep.get('proof_log'): print(rep['proof_log'][:3000])
